@@ -253,7 +253,10 @@ def plan(tier, seed):
 
 
 def shard(ctx):
-    prof = StreamProfile(knobs_fn=knobs, script_len=ctx.params["script_len"], op_weights=weights())
+    from ..templates import any_template
+
+    prof = StreamProfile(knobs_fn=knobs, script_len=ctx.params["script_len"], op_weights=weights(), templates=any_template)
+    prof.template_prob = 0.2
     run_stream(ctx, prof, [PrintMonitor(ctx)])
 
 
